@@ -688,4 +688,45 @@ def rule_i(ctx: Ctx) -> None:
     ctx.explain('C11.i: handler coverage of the three sites that evaluate schema XPath tests on instance data, over the reviewed raise-set.')
 
 
-RULES = [rule_a, rule_b, rule_c, rule_d, rule_e, rule_f, rule_g, rule_h, rule_i]
+def rule_j(ctx: Ctx) -> None:
+    """The per-run table of identity counters is filled when an element carrying the constraint is *entered*.  KeyrefCounter.iter_errors
+    looks the referred key up in that table; the key belongs to another element, which need not occur in the instance, so every caller
+    must make sure the entry exists (or the lookup must tolerate its absence) - otherwise validation ends in KeyError."""
+    rule = 'C11.j'
+    it = ctx.idx.method('xmlschema.validators.identities.KeyrefCounter', 'iter_errors')
+    look = [x for x in ast.walk(it.node) if isinstance(x, ast.Subscript) and isinstance(x.ctx, ast.Load) and text(x.slice) == 'self.refer']
+    parents = enclosing_map(it.node)
+    tolerant = bool(look) and all(any(covers(ctx, it, handler_classes(ctx, it, hs), 'KeyError') for _, hs in enclosing_try_handlers(x, parents)) for x in look) \
+        or any(isinstance(c.func, ast.Attribute) and c.func.attr == 'get' and c.args and text(c.args[0]) == 'self.refer' for c in calls(it.node))
+    ctx.floor(rule, 'lookups of the referred key in KeyrefCounter.iter_errors', len(look) + (1 if tolerant and not look else 0), 1)
+    n = 0
+    for f in ctx.idx.iter_functions('validators'):
+        if isinstance(f.node, ast.Lambda) or f.qualname == it.qualname:
+            continue
+        for c in calls(f.node):
+            if not (isinstance(c.func, ast.Attribute) and c.func.attr == 'iter_errors' and len(c.args) == 1 and text(c.args[0]).endswith('identities')):
+                continue
+            n += 1
+            table = text(c.args[0])
+            g = cfg_of(ctx, f)
+            own = g.owners(c)
+            ensured = False
+            if own:
+                # a store `<table>[<…refer>] = …` behind a `not in <table>` test, or a membership test guarding the call, dominates the call
+                dom = g.dominators(kinds='nTF')
+                for x in g.nodes:
+                    if x.kind == 'if' and table in text(x.ast.test) and 'refer' in text(x.ast.test) and ('not in' in text(x.ast.test) or ' in ' in text(x.ast.test)) and x in dom[own[0]]:
+                        body_store = any(isinstance(y, ast.Assign) and isinstance(y.targets[0], ast.Subscript) and text(y.targets[0].value) == table and 'refer' in text(y.targets[0].slice)
+                                         for s_ in x.ast.body for y in ast.walk(s_))
+                        skips = any(isinstance(y, (ast.Continue, ast.Return)) for s_ in x.ast.body for y in ast.walk(s_))
+                        ensured = ensured or body_store or skips
+            ok = tolerant or ensured
+            ctx.ob(rule, f'{f.qualname.split(".", 2)[-1]}: `{text(c)[:60]}` cannot end in KeyError for a key that has no scope in the instance', f.loc(c), ok,
+                   '' if ok else f'`{table}` has an entry only for the identities of elements that were entered: for root(use*, other?) with the key on `other` and the keyref on root, '
+                   '<root><use ref="a"/></root> makes iter_errors()/is_valid() raise KeyError instead of reporting the value as not found', key=f'{f.qualname}|keyref-lookup')
+    ctx.floor(rule, 'callers of KeyrefCounter.iter_errors', n, 2)
+    ctx.explain('C11.j: the lookup `identities[self.refer]` in KeyrefCounter.iter_errors is either tolerant (KeyError handler / .get) or every caller is dominated by a test of '
+                '`refer` against the table that stores the missing entry or skips the call.')
+
+
+RULES = [rule_a, rule_b, rule_c, rule_d, rule_e, rule_f, rule_g, rule_h, rule_i, rule_j]
